@@ -40,6 +40,10 @@ CHECKS = {
    technique="exhaustive enumeration over every instruction/terminator kind (listed from the current source) x operand-list shapes x every operand slot: reflective slot model vs Operands(), write-through and substitute-all oracles on printed text, Succs() vs printed targets, before and after list edits and caller-slice mutation",
    text="A catalogue module instantiates all 54 instruction and 12 terminator kinds (the kind list comes from go/types at check time; a kind without an instance is a machinery error) with every optional operand present/absent and lists of length 0,1,2. For every user: Operands() must equal the set of value-typed slots found by reflection over the struct (so a field added later is demanded automatically), before and after replacing list elements / reallocating argument slices; through every slot a uniquely named same-typed replacement is written and exactly that occurrence of the printed instruction must change and be restorable; every value of every function is substituted through all users and must vanish from their text; Succs() must equal the printed `label` targets in order and stay inside the function, also after writing another block through each target slot; constructor-built users are re-checked after the caller mutates the slices it passed in.",
    note="One instance per (kind, shape), fixed operand types; reflection treats helper structs of package ir that are not values (Case, Incoming, Clause, OperandBundle) as parts of the user; metadata-wrapped values are not counted as operand slots."),
+ "C01": dict(level="model_checking", design="§1 E4/E5, §2 C01",
+   technique="deviation-bounded exhaustive enumeration of an independent grammar catalogue (every variant with <=2, thorough <=3, departures from the simplest form of each production, types from a bounded universe), each variant run through the real parser+printer and compared with LLVM 14's own reading (llvm-as|llvm-dis canonical form) of input and output",
+   text="An independent text generator (it never touches the library's data model) holds a catalogue of about 100 grammar productions covering all 54 instruction and 12 terminator kinds, call sites (calling conventions, attributes, operand bundles, inline asm), exception handling, constants and all constant-expression kinds, literal forms, globals, aliases/ifuncs, function headers, parameter/function attributes, comdats, type definitions (recursive, packed, opaque, aliases), attribute groups, module-level directives, metadata tuples/strings/values/named metadata/attachments and all 28 specialised debug-info nodes. Every result is used at the type LLVM's rules give it. All variants with at most 2 (thorough 3) non-default choices are generated (9k / 88k modules), validated by llvm-as (rejects are generator defects: skipped and counted), parsed and printed by the library; the printed text must be accepted by llvm-as and its llvm-dis canonical form (top-level order, attribute-group and metadata numbering normalised) must equal that of the input. Failures are bisected to single variants and reported per minimal deviation set.",
+   note="Oracle: LLVM 14 tools (trusted); LLVM tool crashes are skipped and counted; constructs LLVM 14 reads differently from the library's LLVM 15 model (several definitions of one attribute group) are kept out of the compared alphabet; unnamed-value numbering belongs to C08; nesting deeper than the catalogue templates is not explored."),
 }
 
 NOT_APPLICABLE = {}
